@@ -5,8 +5,13 @@ from . import probes, t4file
 
 
 def convert_deck(case, ctx, out, deck, name='deck', extra=None, style=None,
-                 expand_like=False):
-    text = M.render(deck, style=style, expand_like=expand_like)
+                 expand_like=False, layout=None):
+    if layout is not None:
+        # the same cards in another layout (continuations, comments, blanks)
+        from . import formats
+        text = formats.render_rewrite(deck, layout, expand_like=expand_like)
+    else:
+        text = M.render(deck, style=style, expand_like=expand_like)
     argv = list(deck.cli) + list(extra or [])
     run = ctx.convert(text, argv)
     out.decks.append((name, text, argv))
